@@ -235,7 +235,10 @@ func scenarios() []*sched.Scenario {
 		vrt.Par(
 			func() { es.Evict(1) },
 			func() { es.Evict(3) },
-			func() { es.EvictionEvent(2).OnTrigger(func() { fired[20]++ }); es.EvictionEvent(5).OnTrigger(func() { fired[50]++ }) },
+			func() {
+				es.EvictionEvent(2).OnTrigger(func() { fired[20]++ })
+				es.EvictionEvent(5).OnTrigger(func() { fired[50]++ })
+			},
 		)
 		vrt.Quiesce()
 		last := es.LastEvictedSlot()
@@ -304,8 +307,8 @@ func main() {
 	cli.Main(&cli.Property{
 		ID: "C14", Level: "model_checking", Scenarios: scenarios(),
 		QuickBound: 2, ThoroughBound: 3, Cache: true, QuickSecs: 50, ThoroughSecs: 900,
-		Rule: "every interleaving with at most b preemptions (delay bounding for the reactive-set scenarios, whose executions have thousands of steps) of writers on different inputs and structural changes (add/remove source or element, subscribe/unsubscribe) on real derived reactive values; at quiescence (all writers returned, nothing enabled) the derived value is compared with its defining function of the inputs' current values; deadlock = violation; distinct = distinct (outcome, observation log)",
+		Rule:        "every interleaving with at most b preemptions (delay bounding for the reactive-set scenarios, whose executions have thousands of steps) of writers on different inputs and structural changes (add/remove source or element, subscribe/unsubscribe) on real derived reactive values; at quiescence (all writers returned, nothing enabled) the derived value is compared with its defining function of the inputs' current values; deadlock = violation; distinct = distinct (outcome, observation log)",
 		Assumptions: []string{"convergence is judged at quiescence only (transient staleness while writers run is allowed by the statement)"},
-		NotReached: []string{"DerivedVariable4, Clock, LogUpdates helpers", "more than 3 concurrent writers"},
+		NotReached:  []string{"DerivedVariable4, Clock, LogUpdates helpers", "more than 3 concurrent writers"},
 	})
 }
